@@ -23,7 +23,7 @@ of coefficient `t` of the limb column `c` at radix `2^b` (last limb weight 1), s
        value property `NormSpec` of the cross-radix `vec_znx_big_normalize` (C08 states it as
        `normalize_cross_value`, not proved there either; the executable model is fully tied). -/
 -/
-import Poulpy.Lemmas.CoreEncDec
+import Poulpy.Lemmas.CoreEncLwe
 
 namespace C01
 open NormL CoreEnc
@@ -276,6 +276,51 @@ example : ∃ ct pt, Core.glweEncryptSk 128 3 6 2 2 5 [[[1, -2], [3, 0]]] (some 
       simp at hl
       rcases hl with rfl | rfl <;> simp at hx <;> rcases hx with rfl | rfl <;> norm_num)
   exact ⟨ct, pt, h1, h2, h5⟩
+
+/-! ### LWE -/
+
+/-- **`lwe_encrypt_sk` phase identity**: for every LWE dimension, radix `1 ≤ b ≤ 61`, size, noise precision with
+an existing target limb, plaintext limbs of any number (in the ciphertext's radix), filled buffer, secret and
+error within head-room (`P + D + E ≤ 2^62`: plaintext limbs, inner products, error): the encryption succeeds,
+keeps the mask coefficients of the filled buffer, and the exact limb-wise phase `body + ⟨mask, s⟩` equals the
+message truncated / zero-extended to the ciphertext size plus `e·2^(b(size−1−limb))`, modulo `2^(b·size)`. -/
+theorem lwe_encrypt_sk_phase {b size kxe : Nat} {P D E : Int} (hb1 : 1 ≤ b) (hb : b ≤ 61) (hk : 1 ≤ kxe) (hlimb : errLimb kxe b < size)
+    (filled : Col) (hf : filled.length = size) (pt : List Int) (sk : Poly) (e : Int)
+    (hP : ∀ i, |pt.getD i 0| ≤ P) (hD : ∀ l ∈ filled, |dotZ (l.drop 1) sk| ≤ D) (hE : |e| ≤ E)
+    (hP0 : 0 ≤ P) (hD0 : 0 ≤ D) (hE0 : 0 ≤ E) (hsum : P + D + E ≤ 2 ^ 62) :
+    ∃ ct, Core.lweEncryptSk b size kxe filled pt b sk e = some ct ∧ ct.length = size ∧
+      (∀ i (h : i < ct.length) (h' : i < filled.length), (ct[i]).drop 1 = (filled[i]).drop 1) ∧
+      ∃ K : Int, valI b (lwePhaseBig ct sk) = valI b (lweMsg size pt) + e * 2 ^ (b * (size - 1 - errLimb kxe b)) + K * 2 ^ (b * size) :=
+  lweEncryptSk_phase hb1 hb hk hlimb filled hf pt sk e hP hD hE hP0 hD0 hE0 hsum
+
+/-- non-vacuity: LWE dimension 2, radix 2^3, two limbs, one plaintext limb, noise precision 5 -/
+example : ∃ ct, Core.lweEncryptSk 3 2 5 [[0, 1, -2], [9, 3, 0]] [2] 3 [1, -1] (-1) = some ct ∧
+    ∃ K : Int, valI 3 (lwePhaseBig ct [1, -1]) = valI 3 (lweMsg 2 [2]) + (-1) * 2 ^ (3 * (2 - 1 - errLimb 5 3)) + K * 2 ^ (3 * 2) := by
+  obtain ⟨ct, h1, _, _, h2⟩ := lwe_encrypt_sk_phase (b := 3) (size := 2) (kxe := 5) (P := 2) (D := 3) (E := 1) (by norm_num) (by norm_num)
+    (by norm_num) (by decide) [[0, 1, -2], [9, 3, 0]] rfl [2] [1, -1] (-1)
+    (by intro i; rcases i with _ | i <;> simp)
+    (by intro l hl; simp at hl; rcases hl with rfl | rfl <;> simp [dotZ])
+    (by norm_num) (by norm_num) (by norm_num) (by norm_num) (by norm_num)
+  exact ⟨ct, h1, h2⟩
+
+/-- **`lwe_decrypt` = normalisation of the exact phase** when the accumulation does not wrap -/
+theorem lwe_decrypt_is_normalized_phase (b : Nat) (ct : Col) (sk : Poly) (pb ps : Nat)
+    (hD : ∀ l ∈ ct, |dotZ (l.drop 1) sk| < 2 ^ 63) (hP : ∀ l ∈ ct, |l.getD 0 0 + dotZ (l.drop 1) sk| < 2 ^ 63) :
+    Core.lweDecrypt b ct sk pb ps = normalizeCol? pb ps 0 ((lwePhaseBig ct sk).map (fun x => [x])) b 1 := by
+  unfold Core.lweDecrypt lwePhaseBig
+  rw [List.map_map]
+  have hmap : List.map (fun l => [w64 (List.getD l 0 0 + Core.dotW (List.drop 1 l) sk)]) ct
+      = List.map ((fun x => [x]) ∘ fun l => List.getD l 0 0 + dotZ (List.drop 1 l) sk) ct := by
+    apply List.map_congr_left
+    intro l hl
+    simp only [Function.comp, dotW_eq, w64_id (hD l hl), w64_id (hP l hl)]
+  simp only [hmap]
+
+example : Core.lweDecrypt 3 [[1, 1, -2], [3, 3, 0]] [1, -1] 3 1
+    = normalizeCol? 3 1 0 ((lwePhaseBig [[1, 1, -2], [3, 3, 0]] [1, -1]).map (fun x => [x])) 3 1 :=
+  lwe_decrypt_is_normalized_phase 3 _ _ 3 1
+    (by intro l hl; simp at hl; rcases hl with rfl | rfl <;> simp [dotZ])
+    (by intro l hl; simp at hl; rcases hl with rfl | rfl <;> simp [dotZ])
 
 /-! ### a plaintext of another radix is refused -/
 
